@@ -192,6 +192,23 @@ func (bc *buildCtx) realImpl(d *D) interface{} {
 		var a [3]byte
 		copy(a[:], d.S)
 		return a
+	case "TagStruct": // types whose name (as printed by %T, %#v and the bad-verb diagnostics) contains marker characters
+		return struct {
+			A int    `json:"‹x›"`
+			B string `json:"›"`
+		}{int(d.N), string(d.S)}
+	case "TagNilPtr":
+		return (*struct {
+			A int `json:"‹"`
+		})(nil)
+	case "TagNilChan":
+		return (chan struct {
+			B string `k:"›é‹"`
+		})(nil)
+	case "TagMap":
+		return map[string]struct {
+			C int `json:"‹k›"`
+		}{string(d.S): {int(d.N)}}
 	case "barr8": // room for multi-byte runes (precision counts runes under %s/%q, bytes under %x)
 		var a [8]byte
 		copy(a[:], d.S)
